@@ -14,6 +14,12 @@ use super::Args;
 use std::collections::BTreeMap;
 
 fn triple(fen: &str, history: &[String], depth: u8) -> Option<String> {
+    triple_pv(fen, history, depth).map(|x| x.0)
+}
+
+/// (best move, score, nodes) of a search from an emptied cache, and the principal variation of
+/// its last iteration report
+fn triple_pv(fen: &str, history: &[String], depth: u8) -> Option<(String, Vec<String>)> {
     let (board, _, _) = searchrun::open(fen, history).ok()?;
     let case = Case {
         fen: fen.to_string(),
@@ -23,10 +29,20 @@ fn triple(fen: &str, history: &[String], depth: u8) -> Option<String> {
         cut: Cut::None, elapsed_ms: None,
     };
     let out = searchrun::run(&board, &case, &Opts { clear_cache: true, observe: false, neutral: false });
-    Some(match out.panicked {
-        Some(p) => format!("panic:{p}"),
-        None => format!("{} {} {}", out.best.unwrap_or_else(|| "-".into()), out.score.map_or("-".into(), |x| x.to_string()), out.nodes),
-    })
+    let pv: Vec<String> = out
+        .log
+        .iter()
+        .rev()
+        .find(|l| l.starts_with("info") && l.contains(" pv "))
+        .and_then(|l| l.split(" pv ").nth(1).map(|t| t.split_whitespace().map(str::to_string).collect()))
+        .unwrap_or_default();
+    Some((
+        match out.panicked {
+            Some(p) => format!("panic:{p}"),
+            None => format!("{} {} {}", out.best.unwrap_or_else(|| "-".into()), out.score.map_or("-".into(), |x| x.to_string()), out.nodes),
+        },
+        pv,
+    ))
 }
 
 fn grid(tier: &str) -> Vec<(String, Vec<String>, u8)> {
@@ -60,6 +76,13 @@ pub fn worker(args: &Args, w: &Worker) -> i32 {
     // that survives "emptying the cache" (capacity, counters, killers, ...) shows up as a
     // cross-process difference
     let big_at = (w.shard * g.len()) / n.max(1);
+    // process preamble: the FIRST search of a process differs by shard parity (a tactical position
+    // with White to move / with Black to move, depth 2). The three owners of every pair have both
+    // parities among them, so anything a process freezes at first use (lazily built tables,
+    // once-cells) shows up as a cross-process difference.
+    let preamble = if w.shard % 2 == 0 { "r3k2r/p1ppqpb1/bn2pnp1/3PN3/1p2P3/2N2Q1p/PPPBBPPP/R3K2R w KQkq - 0 1" } else { "r3k2r/p1ppqpb1/bn2pnp1/3PN3/1p2P3/2N2Q1p/PPPBBPPP/R3K2R b KQkq - 0 1" };
+    let _ = triple(preamble, &[], 2);
+    w.count("process_preamble_searches", 1);
     for (k, (fen, hist, d)) in g.iter().enumerate() {
         if k == big_at {
             // ~0.55 M cache entries (quick) / ~3.2 M (thorough): far beyond any 1-16 MB budget
@@ -71,9 +94,45 @@ pub fn worker(args: &Args, w: &Worker) -> i32 {
         if !owners.contains(&w.shard) {
             continue;
         }
-        let Some(a) = triple(fen, hist, *d) else { continue };
+        let Some((a, pv)) = triple_pv(fen, hist, *d) else { continue };
+        // predecessor alphabet: a position one and two plies down the principal variation of the
+        // search just finished is searched right after it (predecessor: its ancestor's search) and
+        // once more (predecessor: its own search); both start from an emptied cache and must agree
+        if *d <= 4 && w.shard == k % n {
+            for plies in 1..=pv.len().min(2) {
+                let mut h2 = hist.clone();
+                h2.extend(pv[..plies].iter().cloned());
+                let Ok((_, pos2, _)) = searchrun::open(fen, &h2) else { continue };
+                if pos2.legal_moves().is_empty() {
+                    continue;
+                }
+                if plies > 1 {
+                    let _ = triple(fen, hist, *d); // the ancestor's search is the immediate predecessor
+                }
+                let Some(r1) = triple(fen, &h2, *d) else { continue };
+                let Some(r2) = triple(fen, &h2, *d) else { continue };
+                w.count("searches", 2);
+                w.count("searches_after_a_search_of_an_ancestor", 1);
+                if r1 != r2 {
+                    w.violation(
+                        &format!("{fen}|{}|d{d}|after-ancestor", h2.join(",")),
+                        &format!("{fen} [{}] depth {d} from an emptied cache: ({r1}) right after a search of the position {plies} plies earlier, ({r2}) when searched again", h2.join(" ")),
+                        &obj(vec![("kind", s("determinism")), ("fen", s(fen.clone())), ("history", report::arr_s(&h2)), ("depth", i(*d)), ("after_ancestor_plies", i(plies as u64))]),
+                    );
+                }
+            }
+        }
+        let Some(a2) = triple(fen, hist, *d) else { continue };
+        let a = if a == a2 { a } else {
+            w.violation(
+                &format!("{fen}|{}|d{d}|after-descendant", hist.join(",")),
+                &format!("{fen} [{}] depth {d}: ({a}) at first, ({a2}) after searches of other positions in the same process, both from an emptied cache", hist.join(" ")),
+                &obj(vec![("kind", s("determinism")), ("fen", s(fen.clone())), ("history", report::arr_s(hist)), ("depth", i(*d))]),
+            );
+            a
+        };
         let Some(b) = triple(fen, hist, *d) else { continue };
-        w.count("searches", 2);
+        w.count("searches", 3);
         if a != b {
             w.violation(
                 &format!("{fen}|{}|d{d}|same-process", hist.join(",")),
@@ -87,6 +146,31 @@ pub fn worker(args: &Args, w: &Worker) -> i32 {
     for (k, fen) in bench_fens().iter().enumerate() {
         if !w.mine(k) {
             continue;
+        }
+        // the predecessor alphabet on the bench positions as well (depth 4: principal variations
+        // of three and more plies)
+        if let Some((_, pv)) = triple_pv(fen, &[], 4) {
+            for plies in 1..=pv.len().min(2) {
+                let h2: Vec<String> = pv[..plies].to_vec();
+                let Ok((_, pos2, _)) = searchrun::open(fen, &h2) else { continue };
+                if pos2.legal_moves().is_empty() {
+                    continue;
+                }
+                if plies > 1 {
+                    let _ = triple(fen, &[], 4); // the ancestor's search is the immediate predecessor
+                }
+                let Some(r1) = triple(fen, &h2, 4) else { continue };
+                let Some(r2) = triple(fen, &h2, 4) else { continue };
+                w.count("searches", 2);
+                w.count("searches_after_a_search_of_an_ancestor", 1);
+                if r1 != r2 {
+                    w.violation(
+                        &format!("{fen}|{}|d4|after-ancestor", h2.join(",")),
+                        &format!("{fen} [{}] depth 4 from an emptied cache: ({r1}) right after a search of the position {plies} plies earlier, ({r2}) when searched again", h2.join(" ")),
+                        &obj(vec![("kind", s("determinism")), ("fen", s(fen.clone())), ("history", report::arr_s(&h2)), ("depth", i(4)), ("after_ancestor_plies", i(plies as u64))]),
+                    );
+                }
+            }
         }
         if let Some(t) = triple(fen, &[], 6) {
             let nodes: u64 = t.split(' ').nth(2).and_then(|x| x.parse().ok()).unwrap_or(0);
@@ -204,6 +288,8 @@ pub fn run(args: &Args) -> i32 {
             ("position_depth_pairs".into(), i(compared)),
             ("process_results_compared".into(), i(procs)),
             ("searches".into(), i(merged.get("searches"))),
+            ("searches_right_after_a_search_of_an_ancestor_position".into(), i(merged.get("searches_after_a_search_of_an_ancestor"))),
+            ("process_preamble_searches_white_or_black_first_by_process".into(), i(merged.get("process_preamble_searches"))),
             ("bench_runs".into(), i(totals.len() as u64)),
             ("bench_run_under_200x_clock".into(), J::Bool(shim)),
             ("bench_positions_recomputed".into(), i(merged.get("bench_positions"))),
@@ -226,6 +312,22 @@ pub fn replay(doc: &J) -> i32 {
     let hist = r.get("history").map(|x| x.str_list()).unwrap_or_default();
     let d = r.get("depth").and_then(|x| x.int()).unwrap_or(1) as u8;
     searchrun::quiet_panics();
+    if let Some(plies) = r.get("after_ancestor_plies").and_then(|x| x.int()) {
+        let up = hist.len().saturating_sub(plies as usize);
+        let mut verdicts = vec![];
+        for _ in 0..2 {
+            let _ = triple(&fen, &hist[..up], d);
+            let r1 = triple(&fen, &hist, d);
+            let r2 = triple(&fen, &hist, d);
+            println!("after the ancestor's search: {r1:?}; searched again: {r2:?}");
+            verdicts.push(r1 != r2);
+        }
+        if verdicts[0] != verdicts[1] {
+            eprintln!("MACHINERY: replay not reproducible");
+            return 2;
+        }
+        return i32::from(verdicts[0]);
+    }
     let v: Vec<Option<String>> = (0..4).map(|_| triple(&fen, &hist, d)).collect();
     println!("{v:?}");
     if v.iter().any(|x| *x != v[0]) {
